@@ -148,6 +148,13 @@ fn verdicts(ctx: &RunCtx, sim: &Sim, report: &mut Report, node: HostId, op: OpId
     let mut seen = BTreeSet::new();
     for (a, _) in &lt.queried {
         if !seen.insert(*a) {
+            if ctx.verbose {
+                sim.with_trace(|tr| {
+                    for d in tr.iter().filter(|d| d.dst == *a || d.src == *a) {
+                        println!("  {}", trace_line(d));
+                    }
+                });
+            }
             report.violate("closure", "address-queried-twice", format!("{a} was sent two requests by one lookup; {what}"));
         }
     }
@@ -433,6 +440,13 @@ fn run(ctx: &RunCtx) -> Report {
         latency_max_us: rng.range(2_000, 185_000),
         ..NetCfg::default()
     };
+    // 1 run in 8 (own random stream): a *busy socket* - the node runs five to seven other lookups at the same time
+    // in a network of 100..300 peers most of which take 150..400 ms to answer (links faster than 20 ms, so every
+    // round trip still stays below the request timeout): dozens of requests of other lookups are outstanding on
+    // the shared socket whenever an answer of the judged lookup arrives
+    let mut brng = Rng::new(crate::rng::key(ctx.seed, &[crate::rng::tag("c07-busy-socket")]));
+    let busy = brng.chance(1, 8);
+    let net = if busy { NetCfg { latency_max_us: brng.range(2_000, 20_000), ..net } } else { net };
     let sim = Sim::new(ctx.seed, net);
     sim.set_snap_mode(SnapMode::Off);
     let public = rng.chance(1, 2);
@@ -445,6 +459,7 @@ fn run(ctx: &RunCtx) -> Report {
         1 | 2 => rng.usize(30, 100),
         _ => rng.usize(2, 30),
     };
+    let n = if busy { brng.usize(100, 300) } else { n };
     let target: Id = rng.id();
     let plan = rng.below(4); // 0 random ids, 1 cluster around the target, 2 near-ties, 3 mostly far + few close
     let rawnet = RawNet::new();
@@ -493,6 +508,9 @@ fn run(ctx: &RunCtx) -> Report {
         let mut p = Peer::new(id, addr);
         p.k = *rng.pick(&[8usize, 8, 20, 3]);
         p.delay = rng.range(0, 120) * MS;
+        if busy && brng.chance(3, 4) {
+            p.delay = brng.range(150, 400) * MS;
+        }
         if rng.chance(1, 10) {
             p.version = Some(b"LT\x01\x02".to_vec());
         }
@@ -554,6 +572,18 @@ fn run(ctx: &RunCtx) -> Report {
             }
         }
         report.probe("lookups_with_value_holders", 1);
+    }
+    if busy {
+        for _ in 0..brng.usize(5, 7) {
+            let t = brng.id();
+            let _ = match brng.below(3) {
+                0 => sim.find_node(node, t),
+                1 => sim.get_peers(node, t),
+                _ => sim.get_closest_nodes(node, t),
+            };
+        }
+        sim.run_for(brng.range(0, 250) * MS);
+        report.probe("busy_socket_runs", 1);
     }
     let t0 = sim.now();
     let op = match kind {
